@@ -32,6 +32,11 @@ MISSED = {
     "C11-4": "retransmissions followed one another in zero time; symbolic gap of 0/1 s added to `dup_request`",
     "C11-6": "needs the same chosen ID live toward two peers and a third request: quick had k=2; `ids[k=3, chosen]` added to quick",
     "C10-4": "requests with a reserved max-APDU code were exempt from the one-reply oracle; they must now be refused exactly once",
+    "C15-2": "only commandable objects mutate array elements in place; C17's wire-level command harness now also runs for C15, "
+             "with the library's own default priority array",
+    "C12-6": "the peer announced itself once; instances with an earlier, more capable I-Am from the same device added",
+    "C14-6": "every deferred function was a distinct callable; `deferred_repeat` (equal function/argument pairs handed in "
+             "repeatedly) added",
     "C10-5": "no frame carried a source network; `routed_noise` (garbage claiming a remote source, then a relayed valid request) added",
 }
 
